@@ -371,6 +371,7 @@ func (s *State) Changes() []*Change {
 	for _, chg := range s.changes {
 		res = append(res, chg)
 	}
+	verifOrderChanges(res)
 	return res
 }
 
@@ -402,6 +403,7 @@ func (s *State) Tasks() []*Task {
 		}
 		res = append(res, t)
 	}
+	verifOrderTasks(res)
 	return res
 }
 
